@@ -71,6 +71,9 @@ def generate(rng, tier):
         cfg['X'] = P.gen_space(rng)
         cfg['L'] = P.gen_op(rng, cfg['X'])
         cfg['selfadjoint'] = rng.random() < 0.4
+        # self-adjoint branch: A^*A (positive) or a symmetric *indefinite*
+        # matrix whose dominant eigenvalue may be negative
+        cfg['indefinite'] = rng.random() < 0.5
         cfg['maxiter'] = rng.choice([2, 4, 10, 30, 100])
         cfg['xstart'] = rng.random() < 0.3
         plan['config'] = cfg
@@ -714,7 +717,14 @@ def _power(plan, ctx):
         A = P.build_op(cfg['L'], X)
         P.adjoint_filter(A, cfg['seed'])
         if cfg['selfadjoint']:
-            B = A.adjoint * A
+            if cfg.get('indefinite') and cfg['X']['kind'] == 'rn':
+                n = X.size
+                gm = np_rng('sym', cfg['seed'])
+                M = gm.standard_normal((n, n))
+                M = (M + M.T) / 2 - 0.5 * np.eye(n) * abs(M).sum() / n
+                B = o.MatrixOperator(M, domain=X, range=X)
+            else:
+                B = A.adjoint * A
             # a genuinely self-adjoint operator object (adjoint is self)
             op = _SelfAdjoint(B)
         else:
